@@ -371,3 +371,19 @@ package st
 //@   nosafe
 //@   modifies *
 //@   ensures [must-fail-pointer-writer] result == 0
+//@ func VisitsAll
+//@   props: S01
+//@   level: PA
+//@   nosafe
+//@   opt: only=iteration
+//@   opt: count-calls=visit
+//@   modifies *
+//@   loop 0 iteration [every-pass-visits] callcount("visit") >= loopold(callcount("visit")) + 1
+//@ func SkipsSome
+//@   props: S01
+//@   level: PA
+//@   nosafe
+//@   opt: only=iteration
+//@   opt: count-calls=visit
+//@   modifies *
+//@   loop 0 iteration [must-fail-skips] callcount("visit") >= loopold(callcount("visit")) + 1
